@@ -202,6 +202,50 @@ def check(chk):
     reds = [o for p in cps for o in p.ops if o.kind == "method" and o.name in ("mean", "sum", "std")]
     along = bool(reds) and all(any(from_model_attr(a, "sample_name") for a in o.node.args[:1]) for o in reds)
     chk.check(uses_model and along, "SIGN.source", fit, S, why="the alignment sign must come from the correlation of member and model scores along the sample dimension")
+    # the sign is the sign of a PEARSON correlation: the product that is averaged is a product of deviations from the mean
+    # (centring one factor is enough: mean((a - mean a) b) = cov(a, b)); models fitted with center=False have scores with a
+    # non-zero mean, for which the sign of the raw product mean is not the sign of the correlation.  The product is
+    # Hermitian (exactly one factor conjugated) and the sign is taken of its real part - for complex models np.sign of a
+    # complex number is a phase, and multiplying by it does not make the correlation non-negative.
+    from .common import inline_locals
+
+    def _centres(other):
+        try:
+            other = inline_locals(ff, other)
+        except Exception:
+            pass
+        return any(isinstance(n, ast.Attribute) and n.attr == "mean" for n in ast.walk(other))
+
+    lib = any(isinstance(c, ast.Call) and (dotted(c.func) or "").split(".")[-1] in ("corr", "cov", "corrcoef") for p in cps for o in p.ops
+              for c in [o.node] if o.kind in ("arg", "method"))
+    centred = lib
+    herm_par = set()
+    for p in cps:
+        if not (_is_model_entry(p, "scores") or p.has_op("method", "transform") or p.atom.kind == "call"):
+            continue
+        kinds = [(o.kind, o.name) for o in p.ops]
+        if ("binop", "Mult") not in kinds:
+            continue
+        i_mult = kinds.index(("binop", "Mult"))
+        red_after = any(k == "method" and nm in ("mean", "sum") for k, nm in kinds[i_mult + 1:])
+        if not red_after:
+            continue
+        for o in p.ops[:i_mult]:
+            if o.kind == "binop" and o.name == "Sub" and o.side == "L" and _centres(o.other):
+                centred = True
+        herm_par.add((_is_model_entry(p, "scores"), sum(1 for k, nm in kinds[:i_mult] if k == "method" and nm in ("conj", "conjugate")) % 2))
+    chk.check(centred, "SIGN.source.centred", fit, S, construct="the alignment sign is the sign of a centred (Pearson) correlation",
+              why="the product of member and model scores is averaged without removing a mean: for a model fitted with center=False the scores have a "
+                  "non-zero mean and the sign of the raw product mean is not the sign of the correlation - members come out negatively correlated with the model's mode")
+    par_model = {par for is_model, par in herm_par if is_model}
+    par_member = {par for is_model, par in herm_par if not is_model}
+    herm = lib or (len(par_model) == 1 and len(par_member) == 1 and par_model != par_member)
+    real = any(o.kind == "attr" and o.name == "real" for p in cps for o in p.ops) or any(
+        isinstance(c, ast.Call) and (dotted(c.func) or "").split(".")[-1] == "real" for c in ast.walk(S.args[0]))
+    chk.check(herm and real, "SIGN.source.herm", fit, S, construct="Hermitian product, sign of its real part",
+              why="for complex models the correlation of member and model scores is the mean of a * conj(b) and its orientation is the sign of the real part; "
+                  f"here {'the product conjugates neither or both factors' if not herm else 'np.sign is applied to the complex value (a phase, not +-1)'}",
+              facts={"conj_parity_model": sorted(par_model), "conj_parity_member": sorted(par_member), "real_part": real})
     # member labels: each of the four bootstrapped results passes through assign_coords(n=arange(1, n_bootstraps + 1))
     # (followed into private helpers; the label array may be a shared local)
     first = None
